@@ -30,7 +30,8 @@ EXPLANATION = (
     'concatenates along axis 1; Aggregation is the mean over axis 1 of the '
     'wrapped model mapped over the flat values. (Y4) RTL evaluates each '
     'lattice on the gather of its recorded input indices (rules shared with '
-    'C17: flatten order, keys, structure).')
+    'C17: flatten order, keys, structure).'
+    ' In pwl_calibration_fn the learned missing output is taken off before the cyclic closing column is appended (W4).')
 ASSUMPTIONS = ['tf.reduce_mean / reshape / clip / split / concat semantics',
                'role table below (which name plays location / scaling)']
 
